@@ -92,147 +92,25 @@ func AddTableAlias(tableName, alias string) Rule {
 }
 
 // QualifyColumns returns a Rule that prefixes unqualified column references
-// with the given table name in a SELECT statement.
+// with the given table name in a SELECT statement, in every clause of it.
+// Derived tables and CTEs are left alone: their columns belong to their own tables.
 func QualifyColumns(tableName string) Rule {
 	return RuleFunc(func(stmt ast.Statement) error {
 		sel, err := getSelect(stmt, "QualifyColumns")
 		if err != nil {
 			return err
 		}
-		for i, col := range sel.Columns {
-			sel.Columns[i] = qualifyExpr(col, tableName)
-		}
-		if sel.Where != nil {
-			sel.Where = qualifyExpr(sel.Where, tableName)
-		}
-		return nil
-	})
-}
-
-// walkExpr recursively walks all expression types and applies fn to each expression.
-// It handles all known AST expression types that can contain sub-expressions,
-// and recurses into subqueries (SelectStatements) where applicable.
-func walkExpr(expr ast.Expression, fn func(ast.Expression) ast.Expression) ast.Expression {
-	if expr == nil {
-		return nil
-	}
-	// Apply fn first (pre-order), then recurse into children.
-	expr = fn(expr)
-	switch e := expr.(type) {
-	case *ast.BinaryExpression:
-		e.Left = walkExpr(e.Left, fn)
-		e.Right = walkExpr(e.Right, fn)
-	case *ast.AliasedExpression:
-		e.Expr = walkExpr(e.Expr, fn)
-	case *ast.UnaryExpression:
-		e.Expr = walkExpr(e.Expr, fn)
-	case *ast.CastExpression:
-		e.Expr = walkExpr(e.Expr, fn)
-	case *ast.BetweenExpression:
-		e.Expr = walkExpr(e.Expr, fn)
-		e.Lower = walkExpr(e.Lower, fn)
-		e.Upper = walkExpr(e.Upper, fn)
-	case *ast.InExpression:
-		e.Expr = walkExpr(e.Expr, fn)
-		for i := range e.List {
-			e.List[i] = walkExpr(e.List[i], fn)
-		}
-		if e.Subquery != nil {
-			walkStmtExprs(e.Subquery, fn)
-		}
-	case *ast.SubqueryExpression:
-		if e.Subquery != nil {
-			walkStmtExprs(e.Subquery, fn)
-		}
-	case *ast.ExistsExpression:
-		if e.Subquery != nil {
-			walkStmtExprs(e.Subquery, fn)
-		}
-	case *ast.AnyExpression:
-		e.Expr = walkExpr(e.Expr, fn)
-		if e.Subquery != nil {
-			walkStmtExprs(e.Subquery, fn)
-		}
-	case *ast.AllExpression:
-		e.Expr = walkExpr(e.Expr, fn)
-		if e.Subquery != nil {
-			walkStmtExprs(e.Subquery, fn)
-		}
-	case *ast.CaseExpression:
-		e.Value = walkExpr(e.Value, fn)
-		for i := range e.WhenClauses {
-			e.WhenClauses[i].Condition = walkExpr(e.WhenClauses[i].Condition, fn)
-			e.WhenClauses[i].Result = walkExpr(e.WhenClauses[i].Result, fn)
-		}
-		e.ElseClause = walkExpr(e.ElseClause, fn)
-	case *ast.FunctionCall:
-		for i := range e.Arguments {
-			e.Arguments[i] = walkExpr(e.Arguments[i], fn)
-		}
-		e.Filter = walkExpr(e.Filter, fn)
-	case *ast.ListExpression:
-		for i := range e.Values {
-			e.Values[i] = walkExpr(e.Values[i], fn)
-		}
-	case *ast.TupleExpression:
-		for i := range e.Expressions {
-			e.Expressions[i] = walkExpr(e.Expressions[i], fn)
-		}
-	case *ast.ExtractExpression:
-		e.Source = walkExpr(e.Source, fn)
-	case *ast.PositionExpression:
-		e.Substr = walkExpr(e.Substr, fn)
-		e.Str = walkExpr(e.Str, fn)
-	case *ast.SubstringExpression:
-		e.Str = walkExpr(e.Str, fn)
-		e.Start = walkExpr(e.Start, fn)
-		e.Length = walkExpr(e.Length, fn)
-	case *ast.ArrayConstructorExpression:
-		for i := range e.Elements {
-			e.Elements[i] = walkExpr(e.Elements[i], fn)
-		}
-		if e.Subquery != nil {
-			walkStmtExprs(e.Subquery, fn)
-		}
-	case *ast.ArraySubscriptExpression:
-		e.Array = walkExpr(e.Array, fn)
-		for i := range e.Indices {
-			e.Indices[i] = walkExpr(e.Indices[i], fn)
-		}
-	case *ast.ArraySliceExpression:
-		e.Array = walkExpr(e.Array, fn)
-		e.Start = walkExpr(e.Start, fn)
-		e.End = walkExpr(e.End, fn)
-		// Leaf nodes: *ast.Identifier, *ast.LiteralValue, *ast.IntervalExpression — no children
-	}
-	return expr
-}
-
-// walkStmtExprs walks all expressions inside a statement (if it's a SelectStatement).
-func walkStmtExprs(stmt ast.Statement, fn func(ast.Expression) ast.Expression) {
-	sel, ok := stmt.(*ast.SelectStatement)
-	if !ok || sel == nil {
-		return
-	}
-	for i := range sel.Columns {
-		sel.Columns[i] = walkExpr(sel.Columns[i], fn)
-	}
-	sel.Where = walkExpr(sel.Where, fn)
-	for i := range sel.OrderBy {
-		sel.OrderBy[i].Expression = walkExpr(sel.OrderBy[i].Expression, fn)
-	}
-	for i := range sel.Joins {
-		sel.Joins[i].Condition = walkExpr(sel.Joins[i].Condition, fn)
-	}
-}
-
-func qualifyExpr(expr ast.Expression, table string) ast.Expression {
-	return walkExpr(expr, func(e ast.Expression) ast.Expression {
-		if id, ok := e.(*ast.Identifier); ok {
-			if id.Table == "" && id.Name != "*" {
-				id.Table = table
+		ast.Inspect(sel, func(n ast.Node) bool {
+			switch x := n.(type) {
+			case *ast.TableReference, *ast.WithClause:
+				return false
+			case *ast.Identifier:
+				if x.Table == "" && x.Name != "*" {
+					x.Table = tableName
+				}
 			}
-		}
-		return e
+			return true
+		})
+		return nil
 	})
 }
